@@ -707,10 +707,18 @@ def run(ctx):
               ("hand", "  X|1|A|G|1\tcWW\tX|1|B|C|2  \r"), ("hand", "\x1cX|1|A|G|1\tcWW\tX|1|B|C|2\x1f\n")]
     for _ in range(ctx.pick(4000, 40000)):
         texts.append(("generated", gen_listing(rng, ctx.pick(12, 30))))
+    # labels outside plain ASCII (digits of other scripts, letters with marks) are not labels of the statement's alphabet and
+    # are not classified here - but the import "never raises", whatever a line holds
+    for lab in ("\uff13BR", "\u00b2BPh", "\u0663BPh", "c\u0057W", "t\u00c7W", "s\uff135", "\u0967BR"):
+        texts.append(("hand", "X|1|A|G|1\t%s\tX|1|B|C|2\n" % lab))
+        texts.append(("hand", "X|1|A|G|1\tcWW\tX|1|B|C|2\nX|1|A|G|3\t%s\tX|1|B|C|4\nX|1|A|G|5\ttHS\tX|1|B|C|6\n" % lab))
     ascii_texts = [(t, x) for t, x in texts if is_ascii(x)]
-    for t, x in texts:
-        if not is_ascii(x):
-            res.count("nonascii:listing")
+    foreign = [x for t, x in texts if not is_ascii(x)]
+    for x, r in zip(foreign, parallel_map(real_listing, foreign)):
+        res.count("nonascii:listing")
+        if r[0] != "ok":
+            res.fail("spec", "C19:listing:raises:" + str(r[1]), {"kind": "listing", "text": x, "family": "non-ascii-label"},
+                     "parse_fr3d_output raised %s on a listing with a label outside ASCII" % r[1])
     reall = parallel_map(real_listing, [x for _, x in ascii_texts])
     history_probe(ctx, res, real_listing, [x for _, x in ascii_texts], "parse_fr3d_output")
     modell = D.ask([["lab.listing", enc(x)] for _, x in ascii_texts])
@@ -966,6 +974,12 @@ def cli_adapter(ctx, res):
     structures = [("184D", base_st)]
     for _ in range(ctx.pick(3, 12)):
         structures.append(("184D:icode-siblings", g3.icode_siblings(base_st, rng)))
+    # chain identifiers with a comma or a quote in them (legal in mmCIF): what is written must still be a table
+    for mark in (",", '"'):
+        names = {}
+        structures.append(("184D:chain-with-%s" % ("comma" if mark == "," else "quote"),
+                           g3.mk_structure([g3.renumber(r, names.setdefault(r.chain, "A%s%s" % (mark, chr(66 + len(names)))), r.number, r.icode)
+                                            for r in base_st.residues])))
     optsets = [["-c"], ["-j"], ["-c", "-j", "-b"], ["-c", "-f"], []]
     try:
         for tag, st in structures:
